@@ -341,8 +341,41 @@ def summarise(prog, limit=60000):
                 s.effects.append(eff)
                 s.events.append(("eff", eff))
             if not t["dest"]["p"]:
-                env[t["dest"]["l"]] = E("call", name, tuple(args), bb, t=t)
+                env[t["dest"]["l"]] = cursor_read(blk, t, name, args, st) or E("call", name, tuple(args), bb, t=t)
         return env
+
+    def cursor_read(blk, t, name, args, st):
+        """The k-th `next()` on one named `buffer.chars().rev()[.skip(j)]` iterator is the (j+k)-th character
+        from the end: written as the `nth` / `last` read the recognisers know.  The iterator borrows the buffer,
+        so nothing can be pushed or popped between two of its reads."""
+        if not name.endswith("Iterator>::next") or len(args) != 1 or t["args"][0]["k"] == "const":
+            return None
+        it = strip_refs(args[0])
+        skipped = 0
+        if it.k == "call" and it.a[0].endswith("Iterator::skip") and len(it.a[1]) == 2 and is_const(strip_refs(it.a[1][1]), "int"):
+            skipped = const_val(strip_refs(it.a[1][1]))
+            it = strip_refs(it.a[1][0])
+        if not (it.k == "call" and it.a[0].endswith(("Iterator::rev", "Iterator>::rev")) and len(it.a[1]) == 1):
+            return None
+        chars = strip_refs(it.a[1][0])
+        if not (chars.k == "call" and chars.a[0].endswith("::chars") and len(chars.a[1]) == 1
+                and any(self_path(x) == (buf,) for x in chars.a[1][0].walk())):
+            return None
+        tmp = t["args"][0]["place"]
+        if tmp["p"]:
+            return None
+        owner = [s["rv"]["place"] for s in blk["stmts"] if s["k"] == "assign" and s["place"]["l"] == tmp["l"]
+                 and not s["place"]["p"] and s["rv"]["k"] == "ref"]
+        if len(owner) != 1 or owner[0]["p"]:
+            return None
+        seen = dict(st.get("cursors", {}))
+        k = seen.get(owner[0]["l"], 0)
+        seen[owner[0]["l"]] = k + 1
+        st["cursors"] = seen
+        at = skipped + k
+        if at == 0:
+            return E("call", "<cursor as std::iter::Iterator>::last", (chars,), t=t)
+        return E("call", "<cursor as std::iter::Iterator>::nth", (it, E("const", ("int", at))), t=t)
 
     def rec(bb, s, env, st, path, onpath):
         if len(out) > limit:
